@@ -1,5 +1,4 @@
 import collections
-import math
 from abc import ABC, abstractmethod
 from collections.abc import Iterable, Mapping, Sequence
 from enum import Enum, EnumMeta, Flag
@@ -306,7 +305,8 @@ def flag_exact_value_dumper(data):
 
 
 def _extract_non_compound_cases_from_flag(enum: type[FlagT]) -> Sequence[FlagT]:
-    return [case for case in enum.__members__.values() if case.value == 0 or not math.log2(case.value) % 1]
+    # a single bit or zero; ``math.log2`` is a float computation and takes 2 ** 53 + 1 for a power of two
+    return [case for case in enum.__members__.values() if case.value >= 0 and case.value & (case.value - 1) == 0]
 
 
 class FlagByListProvider(BaseFlagProvider):
